@@ -377,7 +377,18 @@ class HttpRpc(SimpleDictDocument):
         ctx.out_string = ctx.out_document
 
     def boolean_from_bytes(self, cls, string):
-        return string.lower() in ('true', '1', 'checked', 'on')
+        if string == '':
+            return None
+
+        # what html forms send for checkboxes, on top of the xml literals
+        value = string.lower()
+        if value in ('checked', 'on'):
+            return True
+
+        if value in ('unchecked', 'off'):
+            return False
+
+        return super(HttpRpc, self).boolean_from_bytes(cls, string)
 
     def integer_from_bytes(self, cls, string):
         if string == '':
